@@ -316,6 +316,16 @@ def _install_recorder():
     ip.WorkQueue = RecordingWorkQueue
 
 
+def _set_type_harness(harness):
+    """Awaitable resolve_type / is_type_of answers of the generated schema are handles of this run."""
+    try:
+        from tools import c04_gen
+
+        c04_gen.set_harness(harness)
+    except Exception:  # noqa: BLE001
+        pass
+
+
 # ----------------------------------------------------------------------------- runs
 
 
@@ -350,6 +360,7 @@ async def _run_incremental(loop, schema, document, data, early, chooser, variabl
 
     global _PRUNE_SINK
     harness = Harness(loop)
+    _set_type_harness(harness)
     info = {"harness": harness, "hang": None, "kind": None, "pruned_undelivered": []}
     try:
         _install_recorder()
@@ -411,6 +422,7 @@ async def _run_reference(loop, schema, document, data, truncate, variables):
     from graphql.execution import execute
 
     harness = Harness(loop, truncate=truncate)
+    _set_type_harness(harness)
     chooser = Chooser("lazy")
     result = execute(
         schema, document, data, variable_values=variables, field_resolver=make_resolver(harness)
